@@ -22,12 +22,13 @@ CONFIGS = {
     "nan_merged": ([("A", [NAN, "A"]), ("B", ["b2", "B"])], False, True),
     "default_nan": ([("A", ["A"]), (OTHER, ["r1", OTHER]), (NAN, [NAN])], True, True),
     "numeric": ([("1", [1, "1"]), ("2", [2.0, "2"]), ("x", ["x"])], False, False),
+    "falsy": ([("", [""]), ("0", [0, "0"]), ("x", ["x2", "x"])], False, False),  # known values that are falsy in Python
 }
-UNSEEN = ["zz", 7]
+UNSEEN = ["zz", 7, "", 0]  # incl. falsy values: truthiness tests on lists of values (any(...)) are a classic slip
 
 
 G_GROUPS = [("u", ["u"]), ("v", ["v2", "v"]), ("w", ["w"]), ("x", ["x"])]  # companion feature g: 5 known values, no default, no NaN
-G_UNIVERSE = ["u", "v2", "w", "x", "zz"]
+G_UNIVERSE = ["u", "v2", "w", "x", "zz", ""]
 
 
 def h_qual(ctx, config, output_dtype, dropna, nrows, props, two_features=False):
@@ -133,7 +134,7 @@ def h_qual2(ctx, config, output_dtype, dropna, nrows, props):
                                str_default=OTHER, dropna=dropna, copy=True, verbose=False)
     single_g.fit()
     known = [v for _, m in groups for v in m]
-    universe = [v for v in known if v != NAN][:3] + ["zz"] + ([np.nan] if has_nan else [])
+    universe = [v for v in known if v != NAN][:3] + ["zz", ""] + ([np.nan] if has_nan else [])
     rows_f = [universe[ctx.choose(f"r{i}", len(universe))] for i in range(nrows)]
     rows_g = [G_UNIVERSE[ctx.choose(f"s{i}", len(G_UNIVERSE))] for i in range(nrows)]
     X = pd.DataFrame({"f": pd.Series(rows_f, dtype=object), "g": pd.Series(rows_g, dtype=object)})
@@ -180,7 +181,7 @@ def obligation(tier, props, name):
     return Obligation(
         name=name, harness=h_qual, jobs=jobs, encodes=ENC, rebindings=[],
         bounds=f"{len(CONFIGS)} fitted configurations (plain, default group, NaN alone/merged, numeric-valued members), frames of 0..{2 if quick else 3} rows, each row a solver-chosen "
-               "element of {every known member, two unseen values (str, int), NaN}; output_dtype in {str,float}; dropna in {T,F}",
+               "element of {every known member, four unseen values (str, int, and the falsy '' and 0), NaN}; output_dtype in {str,float}; dropna in {T,F}",
         outside="category *text* is concrete (strings go through pandas.replace, which compares natively); longer frames",
         twin_every=3,
     )
